@@ -6,7 +6,7 @@ D=$1; ID=$2
 W=/tmp/confirm_$ID
 git -C /repo worktree remove --force $W 2>/dev/null
 git -C /repo worktree add --detach $W HEAD -q || exit 3
-export CARGO_NET_OFFLINE=true CARGO_TARGET_DIR=/tmp/confirm_target
+export CARGO_NET_OFFLINE=true CARGO_TARGET_DIR=${CONFIRM_TARGET:-/tmp/confirm_target}
 cd $W
 cp $D/demo.rs tests/demo_$ID.rs
 R_BASE=$(cargo test --offline --test demo_$ID 2>&1 | grep -E "^test result" | head -1)
